@@ -260,7 +260,6 @@ theorem c12_openconfirm_hold0 (tW now : Nat) (arrivals : List Poll) :
     by_cases hk : p.kind.isKeepalive = true
     · simp [hk]
     · simp [hk, openConfirmUnexpected_eq]
-      intro t c sb _ h1 h2; exact ⟨h1.symm, h2.symm⟩
 
 /-- **OPENCONFIRM: a KEEPALIVE in time establishes the session**, at the instant it is read. -/
 theorem c12_openconfirm_keepalive_in_time (H tW now : Nat) (arrivals : List Poll) (p : Poll)
